@@ -32,8 +32,26 @@ import (
 // sequential).  Subscription operations are applied between releases, from the harness
 // goroutine - i.e. from another goroutine than the one running Connect, while connected -
 // and the first <start> operations before Connect.  No sleeps, no timing.
-//   input  : (n0 n<start> (op ...)), op = (n0 x<type> n<label>) | (n1 n<label>) | (n2 n<k>) | (n3 x<type>)
+//   input  : (n0 n<start> (op ...) n<context kind>),
+//            op = (n0 x<type> n<label>) | (n1 n<label>) | (n2 n<k>) | (n3 x<type> n<more>) | (n4 n<how>)
 //   output : ((opres ...) (seen ...)), see coq/theories/RunCallbacks.v
+//
+// Events may arrive together: an event op whose <more> is set is held back and released in one chunk with
+// the event op that follows it (and so on), so that the parser finds several complete events in what one
+// Read returned; the harness gets control back when the parser asks for more, and attributes the
+// invocations to the events of the chunk by the position each event carries as its data.
+//
+// (n4 n<how>): the REQUEST'S CONTEXT is ended (cancelled, cancelled with a cause, its deadline expires - by the
+// context kind, see connContext) - how = 0 by the harness goroutine, now, i.e. between two events while the read
+// loop waits for input; how = 1 from inside a callback: by the first callback invoked after this point, during
+// the dispatch of that event (the usual way to end a connection on a "done" event).  A cancellation scripted
+// before Connect is made from inside the first callback invoked as well (a context that is done when Connect
+// is called lets the first select take either branch: whether anything is requested at all is not a function of
+// the input, and it is C11's matter).  The scripted body does not watch the context: like a strings.Reader, a
+// pipe, a file or whatever a custom RoundTripper hands out, it keeps delivering what the harness releases; so
+// events keep being parsed and dispatched after the cancellation, and every one of them must reach every
+// callback that is subscribed at that moment - being subscribed ends with the remover, not with the context.
+// What Connect finally returns is not observed here (C11).
 //
 // Kind 1 - concurrent scenarios; only violation counters are observed (all must be 0):
 //   input  : (n1 n0 n<kindA> n<kindB>)            the callback invoked first removes the other from
@@ -65,11 +83,17 @@ func init() { families["callbacks"] = family{gen: genCallbacks, exec: execCallba
 
 type stepBody struct {
 	feed   chan []byte   // next chunk of the stream; closed = end of stream
-	called chan struct{} // one token per Read call, sent when Read is entered
+	called chan struct{} // one token per Read call that finds nothing left over, sent when Read is entered
 	quit   chan struct{} // closed when the harness is done: further Reads see the end of the stream
+	rest   []byte        // what the caller's buffer had no room for
 }
 
 func (b *stepBody) Read(p []byte) (int, error) {
+	if len(b.rest) > 0 {
+		n := copy(p, b.rest)
+		b.rest = b.rest[n:]
+		return n, nil
+	}
 	select {
 	case b.called <- struct{}{}:
 	case <-b.quit:
@@ -79,7 +103,9 @@ func (b *stepBody) Read(p []byte) (int, error) {
 	if !ok {
 		return 0, io.EOF
 	}
-	return copy(p, data), nil
+	n := copy(p, data)
+	b.rest = data[n:]
+	return n, nil
 }
 
 func (b *stepBody) Close() error { return nil }
@@ -105,14 +131,16 @@ type cbConn struct {
 	finished bool
 }
 
-func newCbConn() *cbConn {
+func newCbConn() *cbConn { return newCbConnCtx(context.Background()) }
+
+func newCbConnCtx(ctx context.Context) *cbConn {
 	body := &stepBody{feed: make(chan []byte), called: make(chan struct{}), quit: make(chan struct{})}
 	client := sse.Client{
 		HTTPClient:        &http.Client{Transport: stepTransport{body}},
 		ResponseValidator: sse.NoopValidator,
 		Backoff:           sse.Backoff{MaxRetries: -1},
 	}
-	req, _ := http.NewRequestWithContext(context.Background(), http.MethodGet, "http://verif.invalid/events", http.NoBody)
+	req, _ := http.NewRequestWithContext(ctx, http.MethodGet, "http://verif.invalid/events", http.NoBody)
 	return &cbConn{conn: client.NewConnection(req), body: body, done: make(chan error, 1)}
 }
 
@@ -135,16 +163,22 @@ func (c *cbConn) wait() {
 	}
 }
 
-// deliver releases one event and returns when its dispatch has completed.
-func (c *cbConn) deliver(typ string, data string) {
-	if c.broken {
-		return
-	}
+func cbEventBytes(typ string, data string) string {
 	s := ""
 	if typ != "" {
 		s = "event: " + typ + "\n"
 	}
-	s += "data: " + data + "\n\n"
+	return s + "data: " + data + "\n\n"
+}
+
+// deliver releases one event and returns when its dispatch has completed.
+func (c *cbConn) deliver(typ string, data string) { c.deliverBytes(cbEventBytes(typ, data)) }
+
+// deliverBytes releases complete events in one chunk and returns when the parser asks for more.
+func (c *cbConn) deliverBytes(s string) {
+	if c.broken {
+		return
+	}
 	select {
 	case c.body.feed <- []byte(s):
 		c.wait()
@@ -175,32 +209,82 @@ type cbInv struct {
 func execCallbacksSeq(in val.V) val.V {
 	start := in.At(1).Int()
 	ops := in.At(2).Items()
-	c := newCbConn()
+	ctx, endCtx, release := connContext(in.At(3).Num()%connCtxKinds, false)
+	defer release()
+	c := newCbConnCtx(ctx)
 	defer c.finish()
 	var mu sync.Mutex
 	var log []cbInv
 	bad := ""
-	curType := ""
+	sent := map[int]string{} // position -> type of the event released with that position as its data
+	armed := false           // the next callback invoked ends the request's context
 	var removers []sse.EventCallbackRemover
 	mk := func(k int, label uint64) sse.EventCallback {
 		return func(e sse.Event) {
 			pos, err := strconv.Atoi(e.Data)
 			mu.Lock()
 			defer mu.Unlock()
-			if err != nil || e.Type != curType {
+			if armed {
+				armed = false
+				endCtx() // from inside a callback, during a dispatch
+			}
+			typ, ok := sent[pos]
+			if err != nil || !ok || e.Type != typ {
 				bad = "callback got an event that was not sent"
 				return
 			}
 			log = append(log, cbInv{pos, k, label})
 		}
 	}
-	outs := make([]val.V, 0, len(ops))
+	outs := make([]val.V, len(ops))
+	accounted := 0 // how much of the log has been attributed to events
+	result := func(pos int, part []cbInv) {
+		sort.SliceStable(part, func(i, j int) bool { return part[i].sub < part[j].sub })
+		inv := make([]val.V, len(part))
+		for i, x := range part {
+			inv[i] = val.L(val.Int(x.sub), val.N(x.label))
+		}
+		typed, all, types := c.conn.VerifCallbackCount()
+		outs[pos] = val.L(val.L(val.Int(typed), val.Int(all), val.Int(types)), val.List(inv))
+	}
+	// the events held back for the next chunk
+	var held []int
+	var chunk strings.Builder
+	flush := func() {
+		if len(held) == 0 {
+			return
+		}
+		c.deliverBytes(chunk.String())
+		chunk.Reset()
+		mu.Lock()
+		part := append([]cbInv(nil), log[accounted:]...)
+		accounted = len(log)
+		mu.Unlock()
+		// stream order: the invocations for the first event of the chunk, then those for the second ...
+		at := 0
+		for _, p := range held {
+			from := at
+			for at < len(part) && part[at].pos == p {
+				at++
+			}
+			result(p, part[from:at])
+		}
+		if at != len(part) {
+			mu.Lock()
+			bad = "invocation for an event other than the one being dispatched"
+			mu.Unlock()
+		}
+		held = held[:0]
+	}
 	for pos, op := range ops {
+		kind := op.At(0).Num()
+		if kind < 3 || kind == 4 {
+			flush()
+		}
 		if pos == start {
 			c.connect()
 		}
-		from := len(log)
-		switch op.At(0).Num() {
+		switch kind {
 		case 0:
 			if op.At(1).Str() == "" && op.At(2).Num()%2 == 0 {
 				// the unnamed type through its own entry point
@@ -214,32 +298,43 @@ func execCallbacksSeq(in val.V) val.V {
 			if k := op.At(1).Int(); k < len(removers) {
 				removers[k]()
 			}
+		case 4:
+			if op.At(1).Num() == 0 && c.up {
+				endCtx() // from this goroutine, while the read loop waits for input
+			} else {
+				mu.Lock()
+				armed = true
+				mu.Unlock()
+			}
 		default:
 			if !c.up {
 				return val.S("event before Connect")
 			}
+			typ := op.At(1).Str()
 			mu.Lock()
-			curType = op.At(1).Str()
+			sent[pos] = typ
 			mu.Unlock()
-			c.deliver(curType, strconv.Itoa(pos))
+			chunk.WriteString(cbEventBytes(typ, strconv.Itoa(pos)))
+			held = append(held, pos)
+			if !op.At(2).Truth() {
+				flush()
+			}
+			continue
 		}
 		mu.Lock()
-		part := append([]cbInv(nil), log[from:]...)
-		mu.Unlock()
-		sort.SliceStable(part, func(i, j int) bool { return part[i].sub < part[j].sub })
-		inv := make([]val.V, len(part))
-		for i, x := range part {
-			if x.pos != pos {
-				bad = "invocation for an event other than the one being dispatched"
-			}
-			inv[i] = val.L(val.Int(x.sub), val.N(x.label))
+		if len(log) != accounted {
+			bad = "invocation for an event other than the one being dispatched"
+			accounted = len(log)
 		}
-		typed, all, types := c.conn.VerifCallbackCount()
-		outs = append(outs, val.L(val.L(val.Int(typed), val.Int(all), val.Int(types)), val.List(inv)))
+		mu.Unlock()
+		result(pos, nil)
 	}
+	flush()
 	if c.broken {
 		return val.S("Connect returned before the stream ended")
 	}
+	mu.Lock()
+	defer mu.Unlock()
 	if bad != "" {
 		return val.S(bad)
 	}
@@ -874,10 +969,32 @@ func genMeetRounds(r *rng.R, n int, count func(string)) []val.V {
 }
 
 // emit a history; Connect starts at a random point not after the first event
-func emitCbHistory(c *Ctx, ops []val.V, key string) {
+func emitCbHistory(c *Ctx, ops []val.V, key string) { emitCbHistoryCtx(c, ops, key, 0) }
+
+// cbBatch makes events that follow one another arrive together: every event op that is directly followed by another one
+// is, with probability num/den, held back and released in one chunk with its successor
+func cbBatch(r *rng.R, ops []val.V, num, den int) {
+	for i := 0; i+1 < len(ops); i++ {
+		if ops[i].At(0).Num() == 3 && ops[i+1].At(0).Num() == 3 && r.Chance(num, den) {
+			ops[i] = val.L(val.N(3), ops[i].At(1), val.N(1))
+		}
+	}
+}
+
+// cbInsert returns ops with op inserted before position i
+func cbInsert(ops []val.V, i int, op val.V) []val.V {
+	out := make([]val.V, 0, len(ops)+1)
+	out = append(out, ops[:i]...)
+	out = append(out, op)
+	return append(out, ops[i:]...)
+}
+
+// emit a history whose request context is of kind ctxKind; Connect starts at a random point not after the first event
+// and not after the first cancellation
+func emitCbHistoryCtx(c *Ctx, ops []val.V, key string, ctxKind int) {
 	firstEv := len(ops)
 	for i, op := range ops {
-		if op.At(0).Num() == 3 {
+		if k := op.At(0).Num(); k == 3 || k == 4 {
 			firstEv = i
 			break
 		}
@@ -892,7 +1009,59 @@ func emitCbHistory(c *Ctx, ops []val.V, key string) {
 	} else {
 		c.Count("connect:after-some-operations")
 	}
-	c.Emit(val.L(val.N(0), val.Int(start), val.List(ops)))
+	if ctxKind == 0 {
+		c.Emit(val.L(val.N(0), val.Int(start), val.List(ops)))
+	} else {
+		c.Emit(val.L(val.N(0), val.Int(start), val.List(ops), val.Int(ctxKind)))
+	}
+}
+
+// The request's context ends while events are still to come (see the head of this file): a few subscription set-ups
+// (typed, unnamed, to-all, several per type, one removed before, one removed after the cancellation) x a stream of six
+// events x the cancellation after every number of events x made by the harness goroutine / from inside a callback x
+// the events arriving one by one / all that remain in one chunk / in pairs x every kind of context.
+func cbCancelSweep(c *Ctx) {
+	sub := func(t string, l int) val.V { return val.L(val.N(0), val.S(t), val.Int(l)) }
+	all := func(l int) val.V { return val.L(val.N(1), val.Int(l)) }
+	rm := func(k int) val.V { return val.L(val.N(2), val.Int(k)) }
+	setups := [][]val.V{
+		{all(0)},
+		{sub("", 0), sub("x", 1), all(2)},
+		{sub("", 1), sub("", 2), sub("done", 0), sub("x", 1), rm(1)},
+		{sub("x", 0), sub("x", 0), all(1), all(2), sub("message", 1)},
+		{sub("done", 2)},
+	}
+	types := []string{"", "done", "x", "", "message", "x"}
+	for si, setup := range setups {
+		for at := 0; at <= len(types); at++ {
+			for how := 0; how < 2; how++ {
+				for batch := 0; batch < 3; batch++ {
+					ops := append([]val.V{}, setup...)
+					for i, t := range types {
+						if i == at {
+							ops = append(ops, val.L(val.N(4), val.Int(how)))
+						}
+						more := 0
+						if i+1 < len(types) && (batch == 1 || batch == 2 && i%2 == 0) {
+							more = 1
+						}
+						ops = append(ops, val.L(val.N(3), val.S(t), val.Int(more)))
+						if i == 3 && si%2 == 0 {
+							ops = append(ops, rm(0)) // unsubscribing, not cancelling, is what stops a callback
+						}
+					}
+					if at == len(types) {
+						ops = append(ops, val.L(val.N(4), val.Int(how)))
+					}
+					ops = append(ops, cbTail("", "done", "x")...)
+					c.Count("cancel-sweep")
+					c.Count(fmt.Sprintf("cancel:how-%d", how))
+					ctxKind := (si + at + how + batch) % connCtxKinds
+					c.Emit(val.L(val.N(0), val.Int(c.R.Intn(len(setup)+1)), val.List(ops), val.Int(ctxKind)))
+				}
+			}
+		}
+	}
 }
 
 func genCallbacks(c *Ctx) {
@@ -907,9 +1076,11 @@ func genCallbacks(c *Ctx) {
 	}
 	var named, key string
 	var tail []val.V
+	letters := 8
 	var rec func(prefix []int, maxLen int)
 	rec = func(prefix []int, maxLen int) {
 		nsub := 0
+		cancelled := false
 		ops := make([]val.V, 0, len(prefix)+3)
 		for _, a := range prefix {
 			switch a {
@@ -926,17 +1097,32 @@ func genCallbacks(c *Ctx) {
 				ops = append(ops, val.L(val.N(2), val.Int(a-3)))
 			case 6:
 				ops = append(ops, val.L(val.N(3), val.S("")))
-			default:
+			case 7:
 				ops = append(ops, val.L(val.N(3), val.S(named)))
+			default:
+				ops = append(ops, val.L(val.N(4), val.Int(a-8)))
+				cancelled = true
 			}
 		}
-		emitCbHistory(c, append(ops, tail...), key)
+		if letters == 8 {
+			emitCbHistory(c, append(ops, tail...), key)
+		} else if cancelled {
+			// the second enumeration: only the histories the first one does not have
+			ops = append(ops, tail...)
+			if c.R.Chance(1, 2) {
+				cbBatch(c.R, ops, 1, 1)
+			}
+			emitCbHistoryCtx(c, ops, key, c.R.Intn(connCtxKinds))
+		}
 		if len(prefix) == maxLen {
 			return
 		}
-		for a := 0; a < 8; a++ {
+		for a := 0; a < letters; a++ {
 			if a >= 3 && a <= 5 && a-3 >= nsub {
 				continue // a remover that does not exist yet
+			}
+			if a >= 8 && cancelled {
+				continue // a context ends once
 			}
 			rec(append(prefix, a), maxLen)
 		}
@@ -945,6 +1131,11 @@ func genCallbacks(c *Ctx) {
 	rec(nil, maxLen)
 	named, key, tail = "message", "exhaustive:named-type-message", cbTail("", "message", "Message")
 	rec(nil, maxLen-1)
+	// the same alphabet with two more letters - the request's context is ended by the harness goroutine / from inside the
+	// next callback invoked -, two shorter; all histories in which the context ends (once)
+	letters, named, key, tail = 10, "x", "exhaustive:with-cancellation", cbTail()
+	rec(nil, maxLen-2)
+	letters = 8
 
 	// random longer histories: a pool of 4 types (see cbTypePools), 3 labels, stale and repeated removers favoured
 	n, maxOps := 3000, 40
@@ -976,8 +1167,25 @@ func genCallbacks(c *Ctx) {
 				ops = append(ops, val.L(val.N(3), val.S(types[c.R.Intn(len(types))])))
 			}
 		}
-		emitCbHistory(c, append(ops, cbTail(append([]string{"y"}, types...)...)...), "random")
+		ops = append(ops, cbTail(append([]string{"y"}, types...)...)...)
+		// a third of the histories: events that follow one another arrive in one chunk
+		if c.R.Chance(1, 3) {
+			cbBatch(c.R, ops, 2, 3)
+			c.Count("random:events-arrive-together")
+		}
+		// a third of the histories: the request's context ends somewhere after the first operation - by the harness
+		// goroutine between two events, or from inside the next callback invoked; the context is of a random kind
+		ctxKind := 0
+		if c.R.Chance(1, 3) {
+			how := c.R.Intn(2)
+			ops = cbInsert(ops, 1+c.R.Intn(len(ops)), val.L(val.N(4), val.Int(how)))
+			ctxKind = c.R.Intn(connCtxKinds)
+			c.Count(fmt.Sprintf("cancel:how-%d", how))
+			c.Count(fmt.Sprintf("cancel:context-kind-%d", ctxKind))
+		}
+		emitCbHistoryCtx(c, ops, "random", ctxKind)
 	}
+	cbCancelSweep(c)
 
 	// operations that meet at a barrier (kind 3)
 	meets, rounds := 24, 50
